@@ -218,9 +218,9 @@ Named == {1, 2, 3}
 
 -----------------------------------------------------------------------------
 (* expressions and statements *)
-Lit(v) == [e |-> "lit", v |-> v]
-Call(m, a, args) == [e |-> "call", m |-> m, a |-> a, args |-> args]
-Get(a, i) == [e |-> "get", a |-> a, i |-> i]
+LLit(v) == [e |-> "lit", v |-> v]
+LCall(m, a, args) == [e |-> "call", m |-> m, a |-> a, args |-> args]
+LGet(a, i) == [e |-> "get", a |-> a, i |-> i]
 SExpr(x) == [op |-> "expr", x |-> x]                       \* print the value of x
 SSet(a, i, v) == [op |-> "set", a |-> a, i |-> i, v |-> v]  \* a[i] = v
 
@@ -302,7 +302,7 @@ LTree(s, v, top, fuel) ==
   ELSE v
 \* the result of push is the receiver itself; an array returned by pop / popfirst / a[i] is a stored copy
 ResIsReceiver(st) == st.op = "expr" /\ st.x.e = "call" /\ st.x.m = "push"
-Expect(s, st, res, status, n) ==
+LExpect(s, st, res, status, n) ==
   IF status # "ok" THEN [st |-> status]
   ELSE [st |-> "ok", res |-> LTree(s, res, ResIsReceiver(st), 5),
         arrs |-> [k \in 1..n |-> LTree(s, Arr(k), TRUE, 5)],
